@@ -11,6 +11,7 @@ import json, os, random, shutil, tempfile
 import checklib
 from checklib import Prop, ROOT, REPO
 import fmt7
+import c20_url
 
 KINDS = ["info", "images", "rpms", "modules"]
 FMT_OF = {"info": "composeinfo", "images": "images", "rpms": "rpms", "modules": "modules"}
@@ -198,11 +199,20 @@ class C20(Prop):
             "(every accessor at least once, repeated accesses); full and EMPTY-payload manifests with the file deleted between "
             "two accesses for all four accessors; correspondence with the model fed the real os.listdir orders; "
             "oracle: resolved layout, file chosen, dumps() equal to a direct load, `is` identity and one load per kind, RuntimeError "
-            "naming the location; non-trivial = distinct tree")
+            "naming the location; non-trivial = distinct tree.  REMOTE stream (op url): the real library with productmd.common._urlopen replaced by an "
+            "in-memory fetcher handing out genuine http.client.HTTPResponse / urllib addinfourl / text objects: scheme x layout x presence x slash, "
+            "multi-layout, every fault (404, refused, timeout, disconnect, ValueError) x every URL the resolver can touch, nets that change between "
+            "probe and load, invalid content, a local directory spelled like the URL, the real _urlopen on a refused port and on a loop-back "
+            "http.server; fetch log (URL order, closed) and results compared with the model (cd_url_run); op load3: one document by path / open "
+            "file object / URL")
     assumptions = ["POSIX file system: exists/listdir ignore a trailing slash on a directory (hypothesis of C20_slash; exercised on real dirs)",
-                   "HTTP(S)/FTP locations are not modelled", "'undecodable' = an exception of a class named in the except clause of _load_metadata (read from the source: "
+                   "remote locations: the net is abstract (fetch outcome per URL and per successive fetch: response | URLError | other exception; parse outcome per response); "
+                   "what a server does with `c//compose`, redirects, proxies and TLS are the world's business; `_urlopen` itself (ssl context, urllib) is exercised "
+                   "only against the loop-back server / a refused port, not modelled", "'undecodable' = an exception of a class named in the except clause of _load_metadata (read from the source: "
                    "ValueError, KeyError, TypeError, AttributeError) during load; other classes (OSError) propagate"]
-    partial = {}
+    partial = {"C20_url_propagates_partial": "states what the code does with fetch failures that are not URLError (they leave the constructor / accessor unchanged, "
+                                              "never as RuntimeError) and with a URLError of the load's own fetch; whether the property wants RuntimeError there is a reading "
+                                              "question (a timeout is not 'a missing file'); URLs that urllib rejects outright: known finding F47"}
 
     def gen(self):
         return json.load(open(os.path.join(ROOT, "lean", "generated.json")))
@@ -231,8 +241,104 @@ class C20(Prop):
         rng.shuffle(seq)
         return seq
 
+    def url_cases(self, rng, tier, budget):
+        """remote locations: the same combinations as local, plus fetch faults"""
+        combos = list(self.presence_combos())
+        full = {"composeinfo.json": "valid", "images.json": "valid", "image-manifest.json": "valid", "rpms.json": "valid", "rpm-manifest.json": "valid", "modules.json": "valid"}
+        bases = {"http": ["http://mirror.example/composes/P-1.0", "http://mirror.example:8080/c", "http://h/compose", "http://h/x/metadata"],
+                 "https": ["https://mirror.example/composes/P-1.0", "https://user@h.example/a/b/c"], "ftp": ["ftp://ftp.example/pub/P-1.0", "ftp://h/c"]}
+        schemes = ["http", "https", "ftp"]
+        n = 0
+
+        def mk(scheme, layouts, **kw):
+            nonlocal n
+            n += 1
+            a = {"scheme": scheme, "base": kw.pop("base", None) or bases[scheme][n % len(bases[scheme])], "layouts": layouts, "seed": 60000 + n,
+                 "accesses": kw.pop("accesses", None) or self.accesses(rng), "slash": kw.pop("slash", n % 2 == 0)}
+            a.update((x, y) for x, y in kw.items() if y is not None)
+            return {"op": "url", "args": a}
+        # pinned: both layouts + legacy at once; the three response kinds
+        for scheme in schemes:
+            yield mk(scheme, {"": dict(full), "compose": dict(full), "1.0": dict(full)})
+            yield mk(scheme, {"1.0": dict(full)})
+        yield mk("http", {"compose": dict(full)}, resp="text")
+        # A. single layouts x presence x slash x scheme
+        step = 3 if tier == "quick" else 1
+        for si, sub in enumerate(("", "compose", "1.0")):
+            for ci, files in enumerate(combos):
+                if (ci + si) % step and len(files) not in (0, 6):
+                    n += 1
+                    continue
+                files = dict(files)
+                if sub == "compose" and ci % 4:
+                    files["composeinfo.json"] = "valid"
+                yield mk(schemes[(ci + si) % 3], {sub: files})
+        # B. several layouts at once
+        multi = [["", "compose"], ["", "1.0"], ["compose", "1.0"], ["", "compose", "1.0"], []]
+        for i in range(max(30, budget // 20)):
+            layouts = {}
+            for sub in multi[i % len(multi)]:
+                files = dict(rng.choice(combos))
+                if sub == "compose" and rng.random() < 0.7:
+                    files["composeinfo.json"] = "valid"
+                layouts[sub] = files
+            yield mk(schemes[i % 3], layouts, suffix=["", "/", "//"][i % 3] if i % 5 == 0 else None)
+        # C. fetch faults, stationary: every fault x every URL the resolver can touch (probe; candidates under direct and compose/)
+        targets = ["compose/metadata/composeinfo.json"] + ["%smetadata/%s" % (p, f) for p in ("", "compose/") for f in sorted(KIND_OF_FILE)]
+        i = 0
+        for fault in sorted(c20_url.FAULTS):
+            for t in targets:
+                i += 1
+                if tier == "quick" and fault in ("refused", "disconnect") and i % 3:
+                    continue
+                layouts = {"": dict(full)}
+                if t.startswith("compose/") and t != targets[0] or i % 2:
+                    layouts["compose"] = dict(full)
+                k = KIND_OF_FILE[t.rsplit("/", 1)[1]]
+                yield mk(schemes[i % 3], layouts, faults={t: [fault]}, accesses=[k, "info", k] + self.accesses(rng)[:3])
+        # D. a net that changes between two fetches of the same URL: present for the probe, failing for the load, and the reverse
+        for fault in sorted(c20_url.FAULTS):
+            for t in targets[1:]:
+                i += 1
+                if tier == "quick" and i % 3:
+                    continue
+                k = KIND_OF_FILE[t.rsplit("/", 1)[1]]
+                layouts = {"": dict(full)} if not t.startswith("compose/") else {"compose": dict(full)}
+                yield mk(schemes[i % 3], layouts, faults={t: ["ok", fault] if i % 2 else [fault, "ok"]}, accesses=[k, k, k, "info"])
+        # E. invalid content over a URL
+        i = 0
+        for what in sorted(INVALID):
+            for name in sorted(KIND_OF_FILE):
+                i += 1
+                if tier == "quick" and i % 2:
+                    continue
+                sub = ["", "compose"][i % 2]
+                files = dict(rng.choice(combos))
+                if sub == "compose":
+                    files.setdefault("composeinfo.json", "valid")
+                files[name] = what
+                yield mk(schemes[i % 3], {sub: files}, resp="text" if i % 7 == 0 else None)
+        # F. a local directory spelled like the URL, with a legacy sub-directory; other spellings of the location
+        for scheme in schemes:
+            yield mk(scheme, {}, shadow=True, base="%s://h.example/c" % scheme, accesses=["info", "images"])
+            yield mk(scheme, {"1.0": dict(full)}, shadow=True, base="%s://h.example/c" % scheme, accesses=["info", "images"], index_pages=["1.0/metadata", "1.0", "metadata"])
+            yield mk(scheme, {"compose": dict(full)}, shadow=True, base="%s://h.example/c" % scheme, accesses=["info", "images"])
+        # G. the real `_urlopen`: connection refused on the discard port (no network needed), a loop-back static server
+        for base in ("http://127.0.0.1:9/P", "https://127.0.0.1:9/P", "ftp://127.0.0.1:9/P", "http://127.0.0.1:9/my compose", "http://127.0.0.1:9/P\u00e9"):
+            yield mk(base.split(":")[0], {}, base=base, fetcher="real", accesses=["info", "images"], slash=False)
+        for j, layouts in enumerate([{"": dict(full)}, {"compose": dict(full), "": dict(full)}, {"1.0": dict(full)},
+                                     {"compose": {"composeinfo.json": "valid", "image-manifest.json": "valid", "rpms.json": "notjson"}}]):
+            yield mk("http", layouts, fetcher="httpd", slash=j % 2 == 1)
+        # H. MetadataBase.load: one document by path / open file object / URL (each kind of response object)
+        for k in KINDS:
+            for what in ("valid", "validempty", "notjson", "binary", "empty", "obj", "hdronly", "null"):
+                n += 1
+                yield {"op": "load3", "args": {"kind": k, "what": what, "seed": n}}
+
     def cases(self, rng, tier, budget):
         n = 0
+        for c in self.url_cases(random.Random(rng.random()), tier, budget):
+            yield c
         yield {"op": "fixture", "args": {"root": "tests", "path": "compose", "slash": False, "accesses": ["info", "info", "images"]}}
         yield {"op": "fixture", "args": {"root": "tests", "path": "compose-legacy", "slash": True, "accesses": ["info", "rpms", "info"]}}
         yield {"op": "fixture", "args": {"root": "tests", "path": "compose/compose", "slash": False, "accesses": ["info", "modules", "info"]}}
@@ -354,6 +460,10 @@ class C20(Prop):
         import productmd.compose, productmd.common as C
         a = case["args"]
         tmp = None
+        if case["op"] == "url":
+            return c20_url.real_url(case, content_bytes, cls_of, build_tree)
+        if case["op"] == "load3":
+            return c20_url.real_load3(case, content_bytes, cls_of)
         if case["op"] == "fixture":
             root, top = os.path.join(REPO, a["root"]), a["path"]
         else:
@@ -455,6 +565,10 @@ class C20(Prop):
     # ------------------------------------------------------------------ model side
     def model_requests(self, case):
         a0 = case["args"]
+        if case["op"] == "url":
+            return c20_url.model_request(case, self._last)
+        if case["op"] == "load3":
+            return []
         if a0.get("spelling", "plain") != "plain" or any(k.startswith("mk:") for k in a0["accesses"]):
             return []                                # path spellings the tree model does not normalise ('..', '.') / a growing file system: oracle only
         r = self._last
@@ -462,6 +576,8 @@ class C20(Prop):
                                           "accesses": case["args"]["accesses"]}}]
 
     def compare(self, case, r, m):
+        if case["op"] == "url":
+            return c20_url.compare(case, r, m)
         cls_names = {"info": "ComposeInfo", "images": "Images", "rpms": "Rpms", "modules": "Modules"}
         rv = {"compose_path": r["compose_path"]}
         mv = {"compose_path": m["compose_path"]}
@@ -493,6 +609,10 @@ class C20(Prop):
     # ------------------------------------------------------------------ the property itself
     def oracle(self, case, r):
         a = case["args"]
+        if case["op"] == "url":
+            return c20_url.oracle(case, r)
+        if case["op"] == "load3":
+            return c20_url.oracle_load3(case, r)
         if case["op"] == "fixture":
             layouts = None
         else:
@@ -576,6 +696,27 @@ class C20(Prop):
 
     def stats(self, case, r, dist):
         dist[case["op"]] = dist.get(case["op"], 0) + 1
+        if case["op"] == "load3":
+            for how, got in r.items():
+                k = "load3 %s: %s" % (how, "ok" if "ok" in got else "err " + got["err"])
+                dist[k] = dist.get(k, 0) + 1
+            return
+        if case["op"] == "url":
+            a = case["args"]
+            if "skipped" in r:
+                dist["url skipped: " + r["skipped"][:40]] = dist.get("url skipped: " + r["skipped"][:40], 0) + 1
+                return
+            for k in ["url scheme:" + a.get("scheme", "http"), "url fetcher:" + a.get("fetcher", "fake"), "url response object:" + c20_url.resp_kind(a),
+                      "url layouts:" + ("+".join(sorted(x or "direct" for x in a["layouts"])) or "none"), "url suffix:" + repr(a.get("suffix", "/" if a.get("slash") else "")),
+                      "url compose_path: " + ("raised " + r["compose_path"].get("class", "?") if "err" in r["compose_path"] else
+                                              "compose/" if r["compose_path"]["ok"].rstrip("/").endswith("/compose") and not a["base"].endswith("/compose") else "as given")] \
+                    + ["url fault:" + f for fl in (a.get("faults") or {}).values() for f in fl] + (["url shadowed by a local directory"] if a.get("shadow") else []):
+                dist[k] = dist.get(k, 0) + 1
+            dist["url fetches"] = dist.get("url fetches", 0) + len(r.get("fetches") or r.get("init_fetches") or [])
+            for res in r.get("results", []):
+                k = "url access ok" if "ok" in res else "url access err:" + res.get("class", res["err"])
+                dist[k] = dist.get(k, 0) + 1
+            return
         if case["op"] == "tree":
             k = "layouts:" + "+".join(sorted(x or "direct" for x in case["args"]["layouts"])) if case["args"]["layouts"] else "layouts:none"
             dist[k] = dist.get(k, 0) + 1
@@ -584,9 +725,11 @@ class C20(Prop):
             dist[k] = dist.get(k, 0) + 1
 
     def shrink_candidates(self, case):
-        if case["op"] != "tree":
+        if case["op"] not in ("tree", "url"):
             return []
         a, out = case["args"], []
+        for fk in list(a.get("faults") or {}):
+            c = json.loads(json.dumps(case)); del c["args"]["faults"][fk]; out.append(c)
         for sub in list(a["layouts"]):
             if len(a["layouts"]) > 1:
                 c = json.loads(json.dumps(case)); del c["args"]["layouts"][sub]; out.append(c)
@@ -604,6 +747,6 @@ PROP = C20()
 
 MANIFEST = dict(
     technique="Lean 4 proofs over an abstract world (exists / listdir order / load outcome universally quantified) + state machine logging loads; candidate names, probe names and caching shape regenerated from the AST; differential run on real directory trees with the real os.listdir orders",
-    text="C20_compose_preferred / C20_direct / C20_legacy (for EVERY listing order the chosen sub-directory is the first listed one that has `metadata`) / C20_slash (same files with a trailing slash; C20_slash_tree: with no hypothesis on the world when it is a set of normalised paths) / C20_names + C20_current_before_legacy (current file name wins over the legacy one) / C20_equals_direct_load / C20_cached (over any further access sequence the same object, never loaded again) / C20_errors_missing, C20_wrapped_classes (decide on the except clause read from the source), _undecodable (RuntimeError naming compose path resp. file, for ValueError/KeyError/TypeError/AttributeError), _other_propagate.",
-    note="'Undecodable' is an exception of a class in the except clause of _load_metadata, read from the source (ValueError: JSON syntax, bytes, wrong metadata type, validators; KeyError/TypeError/AttributeError: valid JSON of the wrong shape - F20, fixed). Direct metadata/ together with a sub-directory that has metadata/ resolves to the sub-directory (precedence not fixed by the property; oracle accepts either). URLs are not modelled.",
+    text="C20_compose_preferred / C20_direct / C20_legacy (for EVERY listing order the chosen sub-directory is the first listed one that has `metadata`) / C20_slash (same files with a trailing slash; C20_slash_tree: with no hypothesis on the world when it is a set of normalised paths) / C20_names + C20_current_before_legacy (current file name wins over the legacy one) / C20_equals_direct_load / C20_cached (over any further access sequence the same object, never loaded again) / C20_errors_missing, C20_wrapped_classes (decide on the except clause read from the source), _undecodable (RuntimeError naming compose path resp. file, for ValueError/KeyError/TypeError/AttributeError), _other_propagate.  Remote: C20_url_schemes (prefix tuples of _file_exists and open_file_obj, the except clause, the '://' mark: read from the source) / C20_url_compose_preferred / C20_url_no_legacy_scan / C20_url_names / C20_url_cached / C20_url_errors_runtime / C20_url_probe_error_propagates / C20_url_equals_direct_load / C20_url_slash.",
+    note="'Undecodable' is an exception of a class in the except clause of _load_metadata, read from the source (ValueError: JSON syntax, bytes, wrong metadata type, validators; KeyError/TypeError/AttributeError: valid JSON of the wrong shape - F20, fixed). Direct metadata/ together with a sub-directory that has metadata/ resolves to the sub-directory (precedence not fixed by the property; oracle accepts either). Remote locations (http/https/ftp): Model `existsU/resolveU/findU/loadU/accessU` over an abstract net; theorems C20_url_*.",
     ref="7/C20")
